@@ -15,6 +15,25 @@ def _calls(fi: FuncInfo):
             yield n
 
 
+def _with_private_helpers(prog: Program, fi: FuncInfo, ci) -> List[FuncInfo]:
+    """`fi` followed by the private methods of its class it reaches through self./cls. calls (helper extraction
+    keeps an anchor findable)."""
+    out, todo = [], [fi]
+    while todo:
+        f = todo.pop(0)
+        if any(f is g for g in out):
+            continue
+        out.append(f)
+        for n in _calls(f):
+            if isinstance(n.func, ast.Attribute) and isinstance(n.func.value, ast.Name) and \
+                    n.func.value.id in ("self", "cls") and n.func.attr.startswith("_") and \
+                    not n.func.attr.startswith("__"):
+                g = prog.lookup(ci, n.func.attr)
+                if g is not None and g.node is not None:
+                    todo.append(g)
+    return out
+
+
 def unit_creator(prog: Program) -> FuncInfo:
     """The metaclass method through which new_unit creates units (today: QuantityMeta._make_unit):
     the call in the final return of QuantityMeta.new_unit."""
@@ -50,23 +69,23 @@ def factor_method(prog: Program) -> FuncInfo:
     ea = prog.method("Quantity", "equiv_amount")
     uc = prog.cls("Unit")
     qc = prog.cls("Quantity")
-    cands = []
-    for t in ast.walk(ea.node):
-        # the factor is asked for inside the try that translates TypeError into IncompatibleUnitsError
-        scope = [t] if isinstance(t, ast.Try) else []
-        for tr in scope:
-            for n in ast.walk(ast.Module(body=tr.body, type_ignores=[])):
-                if isinstance(n, ast.Call) and isinstance(n.func, ast.Attribute):
-                    f = prog.lookup(uc, n.func.attr)
-                    if f is not None and f.kind == "method" and prog.lookup(qc, n.func.attr) is None:
-                        cands.append(f)
-    if not cands:
-        for n in _calls(ea):
+    in_try, anywhere = [], []
+    for fi in _with_private_helpers(prog, ea, qc):
+        for t in ast.walk(fi.node):
+            # the factor is asked for inside the try that translates TypeError into IncompatibleUnitsError
+            if isinstance(t, ast.Try):
+                for n in ast.walk(ast.Module(body=t.body, type_ignores=[])):
+                    if isinstance(n, ast.Call) and isinstance(n.func, ast.Attribute):
+                        f = prog.lookup(uc, n.func.attr)
+                        if f is not None and f.kind == "method" and prog.lookup(qc, n.func.attr) is None:
+                            in_try.append(f)
+        for n in _calls(fi):
             if isinstance(n.func, ast.Attribute):
                 f = prog.lookup(uc, n.func.attr)
                 if f is not None and f.kind == "method" and not f.name.startswith("__") and \
                         prog.lookup(qc, n.func.attr) is None:
-                    cands.append(f)
+                    anywhere.append(f)
+    cands = in_try or anywhere
     if cands:
         return cands[0]
     raise AnalysisError("anchor vanished: conversion-factor method used by Quantity.equiv_amount")
@@ -77,11 +96,19 @@ def term_resolver(prog: Program) -> FuncInfo:
     (today: _amnt_and_unit_from_term)."""
     um = prog.method("Unit", "__mul__")
     mod = prog.modules["quantity"]
-    for n in ast.walk(um.node):
-        if isinstance(n, ast.Try):
-            for c in ast.walk(ast.Module(body=n.body, type_ignores=[])):
-                if isinstance(c, ast.Call) and isinstance(c.func, ast.Name) and c.func.id in mod.functions:
-                    return mod.functions[c.func.id]
+    in_try, anywhere = [], []
+    for fi in _with_private_helpers(prog, um, prog.cls("Unit")):
+        for n in ast.walk(fi.node):
+            if isinstance(n, ast.Try):
+                for c in ast.walk(ast.Module(body=n.body, type_ignores=[])):
+                    if isinstance(c, ast.Call) and isinstance(c.func, ast.Name) and c.func.id in mod.functions:
+                        in_try.append(mod.functions[c.func.id])
+            elif isinstance(n, ast.Call) and isinstance(n.func, ast.Name) and n.func.id in mod.functions and \
+                    n.func.id.startswith("_"):
+                anywhere.append(mod.functions[n.func.id])
+    cands = in_try or anywhere
+    if cands:
+        return cands[0]
     raise AnalysisError("anchor vanished: term resolution helper used by Unit.__mul__")
 
 
